@@ -50,6 +50,14 @@ int main(void)
                                       : gp_bytes_find_first_not_of(h, hl, set, st);
             free(set);
             put_idx(r); puts("");
+        } else if ((!strcmp(t[0], "sfo") || !strcmp(t[0], "sfno")) && n == 4) {
+            /* strings: membership of whole code points (gp_str_find_first_of / _not_of) */
+            size_t st = strtoull(t[3], NULL, 10);
+            char* set = malloc(nl + 1); memcpy(set, nd, nl); set[nl] = 0;
+            GPString s = mkstr(h, hl);
+            size_t r = t[0][2] == 'o' ? gp_str_find_first_of(s, set, st) : gp_str_find_first_not_of(s, set, st);
+            gp_str_delete(s); free(set);
+            put_idx(r); puts("");
         } else if (!strcmp(t[0], "eq") && n == 3) {
             bool r = gp_bytes_equal(h, hl, nd, nl);
             GPString s = mkstr(h, hl);
